@@ -140,20 +140,12 @@ class Model(nn.Module):
         strides = self.backbone.dec.current_strides
         self.head_layers = nn.ModuleList([])
         for head in self.heads:
-            in_channels = int(
-                round(
-                    self.backbone.max_channels
-                    / (
-                        self.backbone_config.filters_rate
-                        ** len(self.backbone.dec.decoder_stack)
-                    )
-                )
-            )
-            if head.output_stride != min_output_stride:
-                factor = strides.index(min_output_stride) - strides.index(
-                    head.output_stride
-                )
-                in_channels = in_channels * (self.backbone_config.filters_rate**factor)
+            # The head is attached to the decoder block whose output is at the head's
+            # stride, so it takes as many channels as that block produces.
+            decoder_block = self.backbone.dec.decoder_stack[
+                strides.index(head.output_stride)
+            ]
+            in_channels = decoder_block.refine_convs_filters
             self.head_layers.append(head.make_head(x_in=int(in_channels)))
 
     @classmethod
